@@ -19,8 +19,10 @@ RULE = ('(a) nested schedules over {lookup, register, replace}: up to 6 top-leve
         'threads one after the other, requests probed at every Python step of MultiView.add; every response compared with a '
         'freshly built application. Non-trivial = some lookup/request was answered by a view and (a) an operation ran inside '
         'another / (b) a registration followed a request; distinct by full case')
-ASSUMPTIONS = ['RegisterAdapter is one step: validated for in-place additions to a live MultiView by the atomicity probe (a test); '
-               'the unregister/register window of a single-view -> MultiView conversion is NOT covered',
+ASSUMPTIONS = ['a registration is ONE step (the property injects registrations as whole operations into in-progress lookups; lookups '
+               'pre-empting a registration half-way are outside its quantifier) -- except that requests ARE probed at every Python '
+               'step of MultiView.add and its callees (in-place addition to a live MultiView; a test, no model side). The '
+               'unregister -> registerAdapter window of a single-view -> MultiView conversion is a documented limitation (NOTES.md)',
                'every instruction of the translated programs (attribute read/rebind, dict get/set, one adapter-registry query, '
                'lock acquire/release) is atomic (GIL-level); the adapter registry is a map slot -> view and registerAdapter is one step',
                'deterministic pre-emption realises properly nested interleavings only; free-running threads are a test (thorough tier)']
